@@ -468,7 +468,15 @@ func (lw *lcWorld) causeFn(s *lcSess, cause string) func() {
 				lw.w.AppSend(s.sr, msgT("buffered 2"), nil, false, 0)
 			} else {
 				lw.stats["close-with-empty-buffer-and-no-further-poll"] = true
-				if lw.longHB {
+				// the heartbeat deadline is 65 s after the session's last heartbeat (or its opening): the close
+				// timeout (30 s from now) comes first only if that was less than 35 s ago
+				lastHB := s.sr.ConnAt
+				for _, e := range s.sr.Events {
+					if e.Name == "heartbeat" && e.At > lastHB {
+						lastHB = e.At
+					}
+				}
+				if lw.longHB && lw.w.now()-lastHB < 34*time.Second {
 					lw.stats["close-timeout-before-the-heartbeat"] = true
 					for k := len(s.causes) - 1; k >= 0; k-- {
 						if s.causes[k] == "appCloseNoPoll" {
